@@ -446,7 +446,8 @@ _ADDED10 = {
     "C02": " (O4) a printed C++ to_json that adds members to `j` conditionally first gives `j` its container kind.",
     "C03": " (PL2) see C01; (O4) see C02; (SR4, NL1) registered here too.",
     "C04": " (V3, V4) the rewriter's case and child coverage registered here too (a node kind treated as a leaf keeps its comments in the embedded schema).",
-    "C05": " (V5) registered here too for the schema walk; (BN2) see C06.",
+    "C05": " (V5) registered here too for the schema walk; (BN2) see C06; (RB1) in writeProtocolStep the conversion of an item read singly from a stream is printed only inside "
+           "`if (read_block_successful)`.",
     "C06": " (BN2) every (*big.Int).Uint64()/Int64() follows a test of the same value's size (fix 800278c); (X1) registered here too: every listed version is parsed and validated on its own.",
     "C07": " (S2, extended) in a generated write method nothing returns between the state check and the assignment that records the step.",
     "C08": " (V1-V4) visitor and rewriter coverage registered here too.",
@@ -459,6 +460,8 @@ _ADDED10 = {
     "C14": " (PL2) see C01.",
     "C15": " (V3, V4) see C04.",
     "C18": " (I4) see C11.",
+    "C16": " (RB1) see C05.",
+    "C17": " (RB1) see C05.",
 }
 for _src in (_ADDED, _ADDED3, _ADDED4, _ADDED5, _ADDED6, _ADDED7, _ADDED8, _ADDED9, _ADDED10):
     for _k, _v in _src.items():
